@@ -49,6 +49,13 @@ impl Clone for Bytes {
     fn clone(&self) -> (r: Bytes) ensures r@ == self@ { unimplemented!() }
 }
 
+// &Bytes coerces to &[u8]
+impl core::ops::Deref for Bytes {
+    type Target = [u8];
+    #[verifier::external_body]
+    fn deref(&self) -> (r: &[u8]) ensures r@ == self@ { unimplemented!() }
+}
+
 impl Bytes {
     #[verifier::external_body]
     pub fn new() -> (r: Bytes) ensures r@ == Seq::<u8>::empty() { unimplemented!() }
